@@ -14,7 +14,7 @@ META = {
                   "boundary values (year < 1000, 999999 us, trailing zeros) are what a sample misses and a solver query covers.",
     "level_note": "Stubs (contract-tested each run): glibc strftime (unpadded %Y), canonical-width strptime, pytz localize/astimezone for UTC, "
                   "STIXdatetime metadata. Outside the claim: non-zero UTC offsets and date (not datetime) inputs (C astimezone/combine), Feb 29, "
-                  "non-canonical-width input text, TimestampProperty wiring (covered under C02).",
+                  "non-canonical-width input text.",
     "technique": "AST-to-SMT symbolic interpretation of the real functions (pysym over z3, QF_LIA), per-path unsat queries; witnesses replayed natively",
     "outside": ["non-zero UTC offsets, date inputs", "leap days", "input text with 1-digit month/day/time fields (strptime accepts them)"],
     "assumptions": STUB_NOTES,
@@ -27,6 +27,8 @@ def obligations(tier):
             bounds="years 1..9999, all field values, all 10^6 microsecond values (symbolic digits), naive/UTC-aware, 3x2 precision settings"),
         JOB("parse_format_fixed_point", M, "job_parse_format", 900, functions=F, stubs=STUB_NOTES,
             bounds="every canonical text with no fraction or 0..8 (quick) / 0..9 (thorough) fraction digits, symbolic digits and fields, 3x2 settings"),
+        JOB("timestamp_property_clean", M, "job_property_clean", 600, functions=["stix2.properties.TimestampProperty.clean"] + F[:2], stubs=STUB_NOTES,
+            bounds="6 property settings x (plain datetime or STIXdatetime carrying any of 6 other settings) x naive/UTC-aware; all fields symbolic"),
         JOB("order_preserved", M, "job_order", 60, engine="smt", functions=F[1:2],
             bounds="all pairs of microsecond values 0..999999, 3x2 settings (z3 Int, no bound on the arithmetic)"),
     ]
